@@ -138,3 +138,14 @@ def fill(claim, NA):
 		  "primitives (1e-9) and vs its definition by direct summation / quadrature (labelled tests); complement, non-negativity on the Python values.",
 		  "Trusted: Lean kernel + 3 axioms; harness; SciPy primitives and quadrature. Open: closed form = definition for the infinite-support families (normal, lognormal, gamma, "
 		  "Poisson, geometric, negative binomial) is checked numerically only; the theorems there are the complement identities.")
+
+	claim('C10',
+		  "Theorems (Props/C10.lean), over an ordered field with the optimiser's decision entering through its first-order equation: aq_bq_min; eoq_optimal (h Q*^2 = 2K lambda => "
+		  "cost(Q*) = h Q* and cost(Q*) <= cost(Q) for every Q > 0), epq_optimal, eoqb_fraction_optimal + eoqb_optimal (jointly optimal in (Q, x) over all Q > 0 and all x), "
+		  "jrp_cycle_optimal, eoq_mul_yield_optimal, eoq_add_yield_optimal; discrete newsvendor on any finite pmf: cdfAt_mono', nvCost_step (g(y+1) - g(y) = (h+b)F(y) - b), "
+		  "nv_discrete_optimal (the first level whose cdf reaches b/(b+h) minimises h nbar + b n over ALL levels y >= 0), nv_discrete_coherent. "
+		  "Tie: optimise-then-evaluate coherence, first-order residuals (1e-8), model cost functions vs evaluation mode on decision grids (1e-9), discrete newsvendor vs the exact model "
+		  "(levels and costs exactly), JRP bookkeeping; normal / Poisson / explicit-profit / myopic / continuous / yield / disruption newsvendors and EOQ-with-disruptions: coherence, "
+		  "defining expectation and no-better-alternative on grids (labelled tests).",
+		  "Trusted: Lean kernel + 3 axioms; harness; math.sqrt, SciPy ppf/pdf/cdf/brentq, golden-section search (FP). Not proved: continuous newsvendor optimality (only via the "
+		  "critical-ratio residual and grids), unimodality of the exact EOQ-with-disruptions cost, myopic level sets.")
